@@ -4,6 +4,8 @@ use serde_json::Value;
 pub mod c01;
 pub mod c02;
 pub mod c03;
+pub mod c04;
+pub mod c05;
 pub mod c07;
 pub mod c15;
 pub mod c11;
@@ -13,6 +15,8 @@ pub fn run(ctx: &'static Ctx) {
         "C01" => c01::run(ctx),
         "C02" => c02::run(ctx),
         "C03" => c03::run(ctx),
+        "C04" => c04::run(ctx),
+        "C05" => c05::run(ctx),
         "C07" => c07::run(ctx),
         "C15" => c15::run(ctx),
         "C11" => c11::run(ctx),
@@ -42,6 +46,8 @@ pub fn replay(prop: &str, case: &Value) -> Verdict {
         "C01" => c01::replay(case),
         "C02" => c02::replay(case),
         "C03" => c03::replay(case),
+        "C04" => c04::replay(case),
+        "C05" => c05::replay(case),
         "C07" => c07::replay(case),
         "C15" => c15::replay(case),
         "C11" => c11::replay(case),
